@@ -103,6 +103,6 @@ add('C19', 'property-based testing: differential check between the dense-time an
     'DESIGN.md section 5 C19')
 add('C05', 'property-based testing over generated update schedules (common, per-sample, per-variable independent cuts; exhaustive 2^(n-1) schedules for small one-variable signals) against the grid reference and against the single-update run (Hypothesis + enumeration)',
     'Concatenated outputs must be well-formed with non-decreasing time stamps, equal R-ct wherever they cover (shifted by the horizon after pastify) and agree between schedules. '
-    'Main lanes: unbounded operators under arbitrary schedules, bounded and pastified operators in one update; the open finding (bounded operators fed in several updates) has its own lanes.',
+    'Lanes: unbounded, bounded and pastified operators under arbitrary schedules and in one update; exhaustive schedules for a fixed family of formulas on small one-variable signals.',
     'Trusted: vlib/refsem.py ct_cells; the output covers the span between its first and last time stamp; signals start together at 0.',
     'DESIGN.md section 5 C05')
